@@ -218,7 +218,10 @@ func (s *Session) pureCall(fn *ssa.Function, args []Val, st *State) Val {
 		vals = append(vals, v)
 	}
 	// error constructors never return nil
-	if res.Len() == 1 && (fn.String() == "errors.New" || fn.String() == "fmt.Errorf" || strings.HasPrefix(fn.String(), "(*github.com/pingcap/errors.Error).")) {
+	fs := fn.String()
+	if res.Len() == 1 && (fs == "errors.New" || fs == "fmt.Errorf" || strings.HasPrefix(fs, "(*github.com/pingcap/errors.Error).") ||
+		fs == "github.com/pingcap/errors.New" || fs == "github.com/pingcap/errors.Errorf" || fs == "github.com/pkg/errors.New" || fs == "github.com/pkg/errors.Errorf" ||
+		fs == "google.golang.org/grpc/status.Errorf") {
 		if len(vals[0].L) == 1 && vals[0].L[0].Sort == SInt {
 			s.assume(Gt(vals[0].L[0], I(0)))
 		}
